@@ -181,6 +181,23 @@ mod inner {
         }
     }
 
+    #[cfg(rosu_pp_verif)]
+    impl StrainsVec {
+        /// Verification hook: the entries as `(is_zero_run, value bits | zero count)`.
+        pub fn verif_entries(&self) -> Vec<(bool, u64)> {
+            self.inner
+                .iter()
+                .map(|e| {
+                    if e.is_zero() {
+                        (true, e.zero_count())
+                    } else {
+                        (false, e.value().to_bits())
+                    }
+                })
+                .collect()
+        }
+    }
+
     pub struct StrainsIter<'a> {
         inner: Copied<Iter<'a, StrainsEntry>>,
         curr: Option<StrainsEntry>,
@@ -436,6 +453,14 @@ mod inner {
 
         pub fn into_vec(self) -> Vec<f64> {
             self.inner
+        }
+    }
+
+    #[cfg(rosu_pp_verif)]
+    impl StrainsVec {
+        /// Verification hook: the entries as `(is_zero_run, value bits)`.
+        pub fn verif_entries(&self) -> Vec<(bool, u64)> {
+            self.inner.iter().map(|v| (false, v.to_bits())).collect()
         }
     }
 }
